@@ -189,15 +189,26 @@ static void add_compressed(sb_t * s, sb_t * it, int n) {
 
 static sb_t line;
 
+static long nbodies;
+static int query_order(int k) {
+    int mode = (int) (nbodies % 3);
+    if (mode == 0) return k;
+    if (mode == 1) return NIDX - 1 - k;
+    return (k % 2) ? NIDX / 2 - 1 - k / 2 : NIDX / 2 + k / 2;      /* NIDX/2, NIDX/2-1, NIDX/2+1, ... */
+}
+
 static scpi_result_t on_T(scpi_t * c) {
     scpi_parameter_t expr;
-    int idx, cap;
+    int idx, cap, k;
     handler_ran = 1;
     if (!SCPI_Parameter(c, &expr, TRUE)) { handler_ran = 2; return SCPI_RES_ERR; }
-    for (idx = 0; idx < NIDX; idx++) { sb_reset(&items[idx]); numeric_queries(&items[idx], &expr, idx); }
+    /* the entries are asked for in a different order from body to body (ascending, descending, from the middle): what an
+       entry reports must not depend on which entries - of this or of an earlier list - were asked for before */
+    for (k = 0; k < NIDX; k++) { idx = query_order(k); sb_reset(&items[idx]); numeric_queries(&items[idx], &expr, idx); }
     sb_add(&line, ",\"N\":");
     add_compressed(&line, items, NIDX);
-    for (idx = 0; idx < NIDX; idx++) {
+    for (k = 0; k < NIDX; k++) {
+        idx = query_order(k);
         for (cap = 0; cap < NCAP; cap++) { sb_reset(&capitems[cap]); channel_query(&capitems[cap], &expr, idx, cap); }
         sb_reset(&items[idx]);
         add_compressed(&items[idx], capitems, NCAP);
@@ -215,7 +226,6 @@ static scpi_result_t on_flush(scpi_t * c) { (void) c; return SCPI_RES_OK; }
 static const scpi_command_t cmds[] = { {"T", on_T, 0}, SCPI_CMD_LIST_END };
 static scpi_interface_t itf = {on_error, on_write, on_control, on_flush, NULL};
 
-static long nbodies;
 static void run_body(const unsigned char * body, size_t n) {
     static char msg[MAXBODY + 16];
     size_t i;
